@@ -322,13 +322,17 @@ def jetexpand_ode_coefficient_double() -> JetExpansionAlg[problems.JetOde]:
         """
         zeros = np.zeros_like(c[0])
 
-        def vf_wrapped(*u):
-            [vfx] = vf.vector_field(jet_coords=u, t=t)
+        # Time is an argument with (normalised) Taylor series (t, 1, 0, ...)
+        # so that non-autonomous vector fields are expanded in t as well.
+        def vf_wrapped(u, t_):
+            [vfx] = vf.vector_field(jet_coords=(u,), t=t_)
             return vfx
 
         coeffs_emb = [*c] + [zeros] * degree
         p, *s = coeffs_emb
-        p_new, s_new = func.jet(vf_wrapped, (p,), (s,), is_tcoeff=True)
+        t0 = np.asarray(t, dtype=zeros.dtype)
+        t_series = [np.ones_like(t0)] + [np.zeros_like(t0)] * (len(s) - 1)
+        p_new, s_new = func.jet(vf_wrapped, (p, t0), (s, t_series), is_tcoeff=True)
         return np.stack([p_new, *s_new])
 
     return double
